@@ -1,5 +1,6 @@
 (* Props/C03.v — property C03: event stream framing. *)
-From CV Require Import Model.Base Model.Events Model.Sched Proofs.BaseP Proofs.SchedP Proofs.SchedP2 Proofs.SchedP3.
+From CV Require Import Model.Base Model.Events Model.Contract Model.Sched Proofs.BaseP Proofs.SchedP Proofs.SchedP2 Proofs.SchedP3
+  Proofs.SchedP4 Proofs.SchedP7.
 
 (* the counters announced by ParsingFinished are the sums over what was actually ingested, whatever the
    interleaving with execution *)
@@ -23,3 +24,30 @@ Theorem C03_scenario_events_only_from_running :
     (forall x, In x o -> match x with EvScen _ _ _ _ _ => False | _ => True end) \/
     (exists e p, In (e, p) (running s) /\ emits_for e o).
 Proof. exact step_scen_events. Qed.
+
+(* THE FRAMING CONTRACT, whole run: whatever the parser delivers (distinct features, distinct scenarios) and however
+   it is interleaved with execution, in whatever order attempts are polled, fail, are retried and complete, under any
+   concurrency limit and with or without fail-fast, the stream emitted so far is accepted by the contract automaton
+   (Model/Contract.v: Started once and first among the brackets, every Feature/Rule Started exactly once before and
+   Finished exactly once after all events of its scenarios, every scenario event inside an open attempt of an open
+   rule/feature, attempt k+1 only after attempt k closed, nothing after run-Finished) — and once the loop has ended
+   the stream is a COMPLETE run: closed by run-Finished with every opened bracket closed *)
+Theorem C03_stream_satisfies_the_contract :
+  forall cf ls s tr, exec cf ls = Some (s, tr) -> NoDup (feature_ids ls) -> NoDup (inserted_ids ls) ->
+    contract_prefix tr = true /\ (pc s = Done -> contract tr = true).
+Proof. exact exec_satisfies_contract. Qed.
+Print Assumptions C03_stream_satisfies_the_contract.
+
+(* the hypotheses are met by a run with a rule, a retried failing scenario, two concurrent attempts and a normal end *)
+Example C03_nonvacuous :
+  let f := mk_sfeature 1 [mk_sscen 11 None false (Some (1, None)); mk_sscen 12 (Some 5) false None] 1 3 in
+  let ls := [LFeature f; LTop; LAttStart (11, 0); LAttStart (12, 0); LAttEv (11, 0) (ScStep 7 StStarted);
+             LAttEnd (11, 0) true; LParserEnd; LTop; LAttEnd (12, 0) false; LTop; LAttStart (11, 1);
+             LAttEnd (11, 1) false; LTop] in
+  match exec (mk_cfg (Some 2%nat) false) ls with
+  | Some (s, tr) => (match pc s with Done => true | _ => false end, contract tr, N.of_nat (length tr))
+  | None => (false, false, 0)
+  end = (true, true, 14) /\ NoDup (feature_ids ls) /\ NoDup (inserted_ids ls).
+Proof.
+  split; [vm_compute; reflexivity|]. split; cbn; repeat constructor; cbn; intuition discriminate.
+Qed.
